@@ -20,11 +20,14 @@ META = dict(
           "the stdlib generator); repeating the computation in one process consumes a fresh, equally shaped block of draws.",
     trusted="z3; jobs are atomic with respect to shared state (C14 shows they do not write to it); the real samplers draw every sample in the submitting thread (C15/C16 run them single-threaded)",
     bounds=dict(quick="n_samples in {1,2} (+ second batch of <= 2), all job orders; gamma_cat / gamma_k with 2 chance alignments", thorough="n_samples = 3 (24 orders), second batch <= 3"),
-    outside="pre-emptive interleavings inside a job (numba nogil code, CBC), PYTHONHASHSEED (the hash stand-in makes sets order-insensitive, so hash-order leaks cannot be seen), "
-            "real worker counts (job-granularity schedules with atomic jobs cover every worker count given the no-shared-write obligation)",
+    outside="pre-emptive interleavings inside a job (numba nogil code, CBC). The process hash seed cannot be seen by the symbolic model (its hash stand-in makes "
+            "sets order-insensitive): it is covered only by a concrete cross-check on the real build, run with every check - the same seeded computations (both "
+            "samplers, exact / fast / soft, gamma, gamma-cat, gamma-k) under PYTHONHASHSEED 0 / 4242 / 31337 with 1 / 16 / 3 workers must print identical numbers; "
+            "that cross-check is a test, not part of the solver claim",
     stubs=["ThreadPoolExecutor = deferred executor with nondeterministic job order", "alignment methods / sampler / np.std = spies as in C05"],
     assumptions=["jobs atomic w.r.t. shared state"],
     cfg_budget_s=dict(quick=240, thorough=1700),
+    replay_alarm_s=600,
 )
 
 
@@ -165,8 +168,63 @@ def harness(cfg, ns):
     return dict(gamma_cat=h_gk, gamma_k=h_gk, ctor=h_ctor, repeat=h_repeat)[mode]
 
 
+def real_checks(tier):
+    """concrete cross-checks the symbolic model cannot see: the process hash seed and the real worker count"""
+    return [dict(kind="hashseed", name="seeded gamma identical under PYTHONHASHSEED=0 / 4242 and with 1 / 16 workers")]
+
+
+HASHSEED_SCRIPT = r"""
+import sys, json, os, warnings
+warnings.filterwarnings("ignore")
+sys.path.insert(0, os.environ.get("VERIF_REPO", "/repo"))
+import numpy as np
+import pygamma_agreement as pa
+import pygamma_agreement.continuum as co
+from pyannote.core import Segment
+workers = int(sys.argv[1])
+co.os.cpu_count = lambda: workers
+c = pa.Continuum()
+names = ["zoe", "abe", "mia", "bob"]
+for i, a in enumerate(names):
+    for j in range(4):
+        c.add(a, Segment(10 * j + i, 10 * j + 4 + i + (j % 2)), ["verb", "noun", "adj"][(i + j) % 3])
+out = []
+for sampler in (None, pa.ShuffleContinuumSampler()):
+    for kw in (dict(), dict(fast=True), dict(soft=True)):
+        np.random.seed(77)
+        r = c.compute_gamma(pa.CombinedCategoricalDissimilarity(alpha=2), n_samples=4, sampler=sampler, **kw)
+        out.append([round(float(r.observed_disorder), 6), [round(float(a.disorder), 6) for a in r.chance_alignments], round(float(r.gamma), 6),
+                    round(float(r.gamma_cat), 6), [round(float(r.gamma_k(k)), 6) for k in c.categories]])
+print("RESULT" + json.dumps(out))
+"""
+
+
+def _hashseed_check():
+    import json as _json
+    import os
+    import subprocess
+    import sys
+    procs = []
+    for hs, workers in (("0", 1), ("4242", 16), ("31337", 3)):
+        env = dict(os.environ, PYTHONHASHSEED=hs)
+        procs.append((hs, workers, subprocess.Popen([sys.executable, "-W", "ignore", "-c", HASHSEED_SCRIPT, str(workers)], env=env,
+                                                    stdout=subprocess.PIPE, stderr=subprocess.PIPE)))
+    outs = []
+    for hs, workers, p_ in procs:
+        o, e = p_.communicate(timeout=600)
+        line = [l for l in o.decode().splitlines() if l.startswith("RESULT")]
+        if not line:
+            return dict(reproduced=None, detail=f"cross-check process (hash seed {hs}) failed: " + e.decode()[-300:])
+        outs.append((hs, workers, _json.loads(line[0][6:])))
+    base = outs[0][2]
+    bad = [f"PYTHONHASHSEED={hs}, {w} workers: {o} vs PYTHONHASHSEED={outs[0][0]}, {outs[0][1]} worker: {base}" for hs, w, o in outs[1:] if o != base]
+    return dict(reproduced=bool(bad), detail="; ".join(bad)[:600])
+
+
 def replay(case):
     """Schedules are realised on the real build by a deferred executor forcing the jobs in reversed order."""
+    if case.get("kind") == "hashseed":
+        return _hashseed_check()
     import pygamma_agreement as pa
     import pygamma_agreement.continuum as co
     from pyannote.core import Segment
